@@ -11,7 +11,7 @@ from drivers import vclock as V
 DEFAULT_T = 2.0
 SLACK = 0.25          # virtual seconds of bounded overhead the oracle allows
 PATTERNS = ['silence', 'trickle', 'burst_before', 'burst_after', 'match_mid', 'exit_mid', 'immediate', 'trickle_then_match']
-TRANSPORTS = ['pty-select', 'pty-poll', 'fd-select', 'fd-poll', 'socket', 'popen']
+TRANSPORTS = ['pty-select', 'pty-poll', 'fd-select', 'fd-poll', 'socket', 'socket-own', 'popen']     # socket-own: the socket carries its own 0.25 s timeout
 ENTRIES = ['expect', 'expect_exact', 'expect_list', 'expect_loop', 'read_nonblocking']
 TS = [-1, None, 0, 2.0, 0.7]
 
@@ -112,8 +112,10 @@ def scenario(transport, entry, Targ, pattern, rng=None):
         def finish():
             peer.script = [('C',)]; peer.act1()
         cleanup.append(lambda: (peer.cleanup(), os.close(peer.rfd)))
-    elif transport == 'socket':
+    elif transport in ('socket', 'socket-own'):
         peer = T.FdPeer([], 'socket')
+        if transport == 'socket-own':
+            peer.rsock.settimeout(0.25)
         p = socket_pexpect.SocketSpawn(V.VSock(peer.rsock, clk), timeout=DEFAULT_T)
 
         def write(b):
@@ -137,6 +139,7 @@ def scenario(transport, entry, Targ, pattern, rng=None):
         with V.Install(clk, transport, p=p, ctl=ctl):
             start = clk.now
             outcome = None
+            clk.horizon = start + (max(Teff, 0) + 120 if Teff is not None else 3600)
             try:
                 kw = {} if Targ == -1 and rng is not None and rng.random() < 0.5 else {'timeout': Targ}
                 if entry == 'expect':
@@ -159,8 +162,11 @@ def scenario(transport, entry, Targ, pattern, rng=None):
                 outcome = 'eof'
             except V.WouldBlockForever:
                 outcome = 'blocks-forever'
+            except V.RanAway:
+                outcome = 'exc:still-running-120-virtual-seconds-after-the-deadline'
             except Exception as ex:     # noqa
                 outcome = 'exc:' + type(ex).__name__
+            clk.horizon = None
             finish_t = clk.now
     finally:
         for c in cleanup:
@@ -243,7 +249,8 @@ def stage_virtual(ctx, stats, sigs):
                     if tr == 'popen' and Ta is None and en == 'read_nonblocking':
                         continue           # PopenSpawn.read_nonblocking never blocks
                     combos.append((tr, en, Ta, pa))
-    corpus = [('pty-select', 'expect', 2.0, 'trickle'), ('socket', 'expect', 0, 'silence'), ('socket', 'expect', 0, 'immediate'),
+    corpus = [('socket-own', 'expect', None, 'match_mid'), ('socket-own', 'read_nonblocking', None, 'match_mid'), ('socket-own', 'expect_exact', 2.0, 'match_mid'),
+              ('pty-select', 'expect', 2.0, 'trickle'), ('socket', 'expect', 0, 'silence'), ('socket', 'expect', 0, 'immediate'),
               ('popen', 'expect', 0, 'immediate'), ('pty-select', 'expect_loop', -1, 'silence'), ('fd-poll', 'expect_list', -1, 'burst_after'),
               ('pty-poll', 'read_nonblocking', 0.7, 'silence'), ('popen', 'expect_exact', 0.7, 'trickle')]
     if ctx.quick():
@@ -329,10 +336,14 @@ def stage_waitnoecho(ctx, stats, sigs):
             p.getecho = getecho
             with V.Install(clk, 'pty', p=p):
                 t0 = clk.now
+                clk.horizon = t0 + (60 if Targ is not None else 600)
                 try:
                     res = p.waitnoecho(Targ) if Targ != -1 else p.waitnoecho()
+                except V.RanAway:
+                    res = 'still polling %d virtual seconds after the call started' % (60 if Targ is not None else 600)
                 except Exception as ex:   # noqa
                     res = 'exc:' + type(ex).__name__
+                clk.horizon = None
                 el = clk.now - t0
         finally:
             p.close(force=True)
